@@ -412,7 +412,13 @@ impl Model {
             "SUNION" | "SINTER" | "SDIFF" => {
                 if n < 2 { return Some(Exp::Err); }
                 let mut sets: Vec<BTreeSet<Bytes>> = Vec::new();
-                for k in &a[1..] { match d.map.get(k) { None => sets.push(BTreeSet::new()), Some(Entry { val: Val::Set(s), .. }) => sets.push(s.clone()), Some(_) => return Some(Exp::Err) } }
+                let mut missing_seen = false;
+                for k in &a[1..] { match d.map.get(k) {
+                    None => { sets.push(BTreeSet::new()); missing_seen = true; }
+                    Some(Entry { val: Val::Set(s), .. }) => sets.push(s.clone()),
+                    // SINTER: Redis versions differ on whether keys after a missing one are still type-checked
+                    Some(_) => return Some(if name == "SINTER" && missing_seen { Exp::AnyOf(vec![Exp::Err, empty_arr()]) } else { Exp::Err }),
+                } }
                 let mut acc = sets[0].clone();
                 for s in &sets[1..] {
                     acc = match name { "SUNION" => acc.union(s).cloned().collect(), "SINTER" => acc.intersection(s).cloned().collect(), _ => acc.difference(s).cloned().collect() };
@@ -530,6 +536,10 @@ impl Model {
             "ZPOPMIN" | "ZPOPMAX" => {
                 if n != 2 && n != 3 { return Some(Exp::Err); }
                 let c = if n == 3 { match int_arg(&a[2]) { Some(c) => c, None => return Some(Exp::Err) } } else { 1 };
+                // a negative count is an error in current Redis and an empty reply in older ones; with a
+                // non-positive count the reply may be produced before the key is looked at
+                if c < 0 { return Some(Exp::AnyOf(vec![Exp::Err, empty_arr()])); }
+                if c == 0 { return Some(match d.map.get(&a[1]) { Some(Entry { val: Val::ZSet(_), .. }) | None => empty_arr(), Some(_) => Exp::AnyOf(vec![Exp::Err, empty_arr()]) }); }
                 match d.map.get(&a[1]) {
                     None => empty_arr(),
                     Some(Entry { val: Val::ZSet(z), .. }) => {
